@@ -158,12 +158,13 @@ INT_TYPES = {"usize", "isize", "u8", "u16", "u32", "u64", "u128", "i8", "i16", "
 
 
 class Site:
-    def __init__(self, fn: str, kind: str, sig: str, at: str, text: str):
+    def __init__(self, fn: str, kind: str, sig: str, at: str, text: str, auto: Optional[str] = None):
         self.fn = fn
         self.kind = kind
         self.sig = sig
         self.at = at
         self.text = text
+        self.auto = auto          # reason when the site is infeasible by its own shape (no vetting needed)
 
     def key(self) -> str:
         return "%s@%s" % (self.kind, self.sig)
@@ -188,7 +189,7 @@ def panic_sites(gen: Gen, f: dict) -> List[Site]:
                 out.append(Site(fn, nm + "!", _macro_sig(e), e.get("at") or _first_at(e), H.brief(e, 120)))
                 return  # the expansion's own internals are not sites
             if nm in ("format_ident",):
-                out.append(Site(fn, "format_ident!", _fmt_ident_sig(e), _first_at(e), H.brief(e, 120)))
+                out.append(Site(fn, "format_ident!", _fmt_ident_sig(e), _first_at(e), H.brief(e, 120), _fmt_ident_auto(e)))
                 return
             if nm == "parse_quote":
                 out.append(Site(fn, "parse_quote!", _parse_quote_sig(e), _first_at(e), H.brief(e, 120)))
@@ -212,9 +213,18 @@ def panic_sites(gen: Gen, f: dict) -> List[Site]:
             out.append(Site(fn, "index", "%s[%s]" % (source_sig(e["e"], 2), source_sig(e["idx"], 2)), e.get("at", ""), H.brief(e, 120)))
         elif k == "bin" and e.get("op") in ("+", "-", "*", "/", "%", "<<", ">>") and (e.get("lty") in INT_TYPES) and not e.get("overloaded"):
             if not (H.lit_value(e["l"], "int") is not None and H.lit_value(e["r"], "int") is not None):
-                out.append(Site(fn, "arith" + e["op"], "%s %s %s" % (source_sig(e["l"], 2), e["op"], source_sig(e["r"], 2)), e.get("at", ""), H.brief(e, 120)))
+                auto = None
+                lits = [H.lit_value(e["l"], "int"), H.lit_value(e["r"], "int")]
+                if e["op"] == "+" and e.get("lty") in ("usize", "u64") and any(v is not None and 0 <= v <= 65536 for v in lits):
+                    auto = "adding a small constant to a 64-bit counter / length cannot overflow (would need 2^64 elements)"
+                out.append(Site(fn, "arith" + e["op"], "%s %s %s" % (source_sig(e["l"], 2), e["op"], source_sig(e["r"], 2)), e.get("at", ""), H.brief(e, 120), auto))
         elif k == "assign_op" and e.get("op") in ("+=", "-=", "*=", "/=", "%=", "<<=", ">>="):
-            out.append(Site(fn, "arith" + e["op"], "%s %s %s" % (source_sig(e["l"], 2), e["op"], source_sig(e["r"], 2)), e.get("at", ""), H.brief(e, 120)))
+            auto = None
+            rv = H.lit_value(e["r"], "int")
+            lt = (H.strip(e["l"]) or {}).get("ty") if isinstance(H.strip(e["l"]), dict) else None
+            if e["op"] == "+=" and rv is not None and 0 <= rv <= 65536 and lt in ("usize", "u64"):
+                auto = "incrementing a 64-bit counter by a small constant cannot overflow (would need 2^64 steps)"
+            out.append(Site(fn, "arith" + e["op"], "%s %s %s" % (source_sig(e["l"], 2), e["op"], source_sig(e["r"], 2)), e.get("at", ""), H.brief(e, 120), auto))
         for key, v in e.items():
             if key in ("ty", "at", "base_ty"):
                 continue
@@ -250,6 +260,40 @@ def _fmt_ident_sig(e: dict) -> str:
         return "%s <- %s" % ((f.get("fmt_str") or {}).get("v"), ",".join(a.get("expr", "?")[:30] for a in f.get("args", [])))
     lits = [n.get("v") for n in H.walk(e.get("e")) if n.get("k") == "lit" and n.get("ty") == "str"]
     return "lit:%s" % (lits[0] if lits else "?")
+
+
+def _fmt_ident_auto(e: dict) -> Optional[str]:
+    """format_ident! cannot panic when the format string is identifier shaped and every argument is an identifier
+    fragment: a proc_macro2/syn Ident or the output of the crate's own snake-casing of an identifier."""
+    fa = [n for n in H.walk(e.get("e")) if n.get("k") == "fmt_args"]
+    if not fa or not fa[0].get("fa"):
+        return None
+    fmt = (fa[0]["fa"].get("fmt_str") or {}).get("v") or ""
+    if not re.match(r"^([A-Za-z_][A-Za-z0-9_]*|\{\})([A-Za-z0-9_]|\{\})*$", fmt):
+        return None
+    frags = []
+    for n in H.walk(e.get("e")):
+        if n.get("k") == "call":
+            f = H.strip(n["f"])
+            if isinstance(f, dict) and str(f.get("def", "")).endswith("IdentFragmentAdapter") and n["args"]:
+                frags.append(n["args"][0])
+    if not frags:
+        return None
+    for a in frags:
+        a_ = H.strip(a)
+        while isinstance(a_, dict) and a_.get("k") in ("ref", "deref"):
+            a_ = H.strip(a_["e"])
+        ok = False
+        if isinstance(a_, dict):
+            t = a_.get("ty") or ""
+            if a_.get("k") == "local" and re.search(r"\bIdent\b", t):
+                ok = True
+            co = H.call_of(a_)
+            if co and str(co[0].get("def", "")).endswith("snakify"):
+                ok = True
+        if not ok:
+            return None
+    return "identifier-shaped format string whose arguments are identifier fragments (Ident / snake-cased identifier)"
 
 
 def _parse_quote_sig(e: dict) -> str:
@@ -490,6 +534,13 @@ VETTED: Dict[str, Tuple[str, int, str]] = {
     "Vec::insert@local:Vec,local:usize": ("I", 1, "positions come from enumerate() over the same vector, applied in reverse"),
     "arith-@local:usize - lit": ("I", 1, "`pos - 1` under `pos != 0`"),
     "index@local:Vec[bin]": ("I", 1, "`output[pos - 1]` under `pos != 0`, pos from enumerate()"),
+}
+
+# entries whose reason depends on a guard next to the site: a further site of the same shape needs re-vetting
+GUARDED = {
+    "unwrap@Punctuated::last(field FieldsNamed.named)", "unwrap@Punctuated::last(field FieldsUnnamed.unnamed)", "index@as_str(local:String)[struct]",
+    "index@local:Vec[lit]", "index@local:HashMap[local:&PropertyType]", "index@local:HashMap[path]", "unwrap@HashMap::get_mut(local:HashMap)",
+    "arith-@local:usize - lit", "index@local:Vec[bin]", "Vec::insert@local:Vec,local:usize", "index@local:String[struct]",
 }
 
 # dropped-Result sites that are not errors to the user (G2): key -> reason
